@@ -20,7 +20,9 @@ from engine.seq import ScriptSocket, CutCtl, FixedCtl, AllSegmentations, OverRea
 PROPERTY = 'C10'
 LEVEL = 'exploration'
 EXHAUSTIVE = True
-RULE = ('session = banner, EHLO/LHLO, MAIL, RCPT x n (n=1..3), DATA, content|empty content, RSET, custom NOOP, QUIT; '
+RULE = ('session = banner, EHLO/LHLO, MAIL, RCPT x n (n=1..3), DATA, content|empty content, RSET, custom NOOP, QUIT (plus two '
+        'other shapes with n<=2: two transactions back to back without RSET; a second EHLO/LHLO, accepted or refused, between the last '
+        'RCPT and DATA); '
         'reply script = one class from {2xx,4xx,5xx} (RCPT also 3xx; DATA: {354,4xx,5xx}) per command -- all assignments consistent with a '
         'server (DATA refused when no recipient accepted; LMTP: one end-of-data reply per accepted recipient, each '
         'with its own class), quick: at most 2 non-success classes, thorough: all -- x line counts cycling 1..3 x '
@@ -48,12 +50,23 @@ def wire(code, tag, nlines):
 CODE = {'2': '250', '4': '450', '5': '550', '3': '354', '1': '150'}
 
 
+def _split_classes(cls, n):
+    return cls[0], cls[1:1 + n], cls[1 + n], cls[2 + n:]
+
+
+def transactions_of(cfg):
+    """-> list of class strings, one per mail transaction of the session"""
+    if cfg.get('prog') == 'two':
+        return list(cfg['classes'].split('|'))
+    return [cfg['classes']]
+
+
 def build_script(cfg):
-    """cfg: dict(lmtp, pipelining, n, classes=(mail, rcpt..., data, enddata...), empty, lshift)
-    -> list of (name, code, text, wire bytes, extra) in the order the server sends them."""
+    """cfg: dict(lmtp, pipelining, n, classes=(mail, rcpt..., data, enddata...), empty, lshift, prog)
+    prog 'std' (default): one transaction, RSET, custom NOOP, QUIT;  'two': two transactions back to back without
+    RSET (classes = 'first|second');  'rehello': a second EHLO/LHLO between the last RCPT and DATA (cfg['hello2'] = class).
+    -> list of (name, code, text, wire bytes) in the order the server sends them."""
     n = cfg['n']
-    cls = cfg['classes']
-    mail_c, rcpt_c, data_c, end_c = cls[0], cls[1:1 + n], cls[1 + n], cls[2 + n:]
     seq = []
     k = [cfg.get('lshift', 0)]
 
@@ -69,28 +82,38 @@ def build_script(cfg):
 
     add('banner', '220')
     exts = ['mx', '8BITMIME'] + (['PIPELINING'] if cfg['pipelining'] else [])
-    w = b''.join(b'250' + (b' ' if i == len(exts) - 1 else b'-') + e.encode() + b'\r\n' for i, e in enumerate(exts))
-    add('ehlo', '250', (w, 'mx'))
-    add('mail', CODE[mail_c])
-    for i in range(n):
-        add('rcpt%d' % i, '350' if rcpt_c[i] == '3' else CODE[rcpt_c[i]])
-    add('data', CODE[data_c])
-    if data_c == '3':
-        if cfg['lmtp']:
-            acc = [i for i in range(n) if rcpt_c[i] == '2']
-            for j, i in enumerate(acc):
-                add('enddata%d' % i, CODE[end_c[j]])
-        else:
-            add('enddata', CODE[end_c[0]])
-    add('rset', '250')
-    add('noop', '250')
+    hello_wire = b''.join(b'250' + (b' ' if i == len(exts) - 1 else b'-') + e.encode() + b'\r\n' for i, e in enumerate(exts))
+    add('ehlo', '250', (hello_wire, 'mx'))
+    for t, cls in enumerate(transactions_of(cfg)):
+        pre = '' if t == 0 else 't%d-' % (t + 1)
+        mail_c, rcpt_c, data_c, end_c = _split_classes(cls, n)
+        add(pre + 'mail', CODE[mail_c])
+        for i in range(n):
+            add(pre + 'rcpt%d' % i, '350' if rcpt_c[i] == '3' else CODE[rcpt_c[i]])
+        if cfg.get('prog') == 'rehello':
+            if cfg['hello2'] == '2':
+                add('ehlo-again', '250', (hello_wire, 'mx'))
+            else:
+                add('ehlo-again', CODE[cfg['hello2']])
+        add(pre + 'data', CODE[data_c])
+        if data_c == '3':
+            if cfg['lmtp']:
+                acc = [i for i in range(n) if rcpt_c[i] == '2']
+                for j, i in enumerate(acc):
+                    add(pre + 'enddata%d' % i, CODE[end_c[j]])
+            else:
+                add(pre + 'enddata', CODE[end_c[0]])
+    if cfg.get('prog', 'std') == 'std':
+        add('rset', '250')
+        add('noop', '250')
     add('quit', '221')
     return seq
 
 
 def owed(sent, script_names, data_accepted, n_end):
-    """How many scripted replies the bytes sent so far entitle the client to."""
-    count, mode, pos = 1, 'cmd', 0
+    """How many scripted replies the bytes sent so far entitle the client to.  data_accepted / n_end: one entry per DATA
+    command of the session (was it answered 354; how many end-of-data replies follow)."""
+    count, mode, pos, d = 1, 'cmd', 0, 0
     while True:
         nl = sent.find(b'\r\n', pos)
         if nl < 0:
@@ -99,10 +122,14 @@ def owed(sent, script_names, data_accepted, n_end):
         pos = nl + 2
         if mode == 'cmd':
             count += 1
-            if line.upper() == b'DATA' and data_accepted:
-                mode = 'data'
+            if line.upper() == b'DATA':
+                if d < len(data_accepted) and data_accepted[d]:
+                    mode = 'data'
+                else:
+                    d += 1
         elif line == b'.':
-            count += n_end
+            count += n_end[d] if d < len(n_end) else 0
+            d += 1
             mode = 'cmd'
     return count
 
@@ -116,23 +143,28 @@ def session(cfg, sock):
     try:
         holders.append(('banner', c.get_banner()))
         holders.append(('ehlo', c.lhlo('me') if cfg['lmtp'] else c.ehlo('me')))
-        holders.append(('mail', c.mailfrom('s@x')))
-        for i in range(cfg['n']):
-            holders.append(('rcpt%d' % i, c.rcptto('r%d@y' % i)))
-        d = c.data()
-        holders.append(('data', d))
-        if d.code == '354':
-            if cfg['empty']:
-                sd = c.send_empty_data()
-            else:
-                sd = c.send_data(b'Subject: x\r\n\r\n', b'.leading dot\r\nbody\r\n')
-            if cfg['lmtp']:
-                for rcpt, r in sd:
-                    holders.append(('enddata%d' % int(rcpt[1]), r))
-            else:
-                holders.append(('enddata', sd))
-        holders.append(('rset', c.rset()))
-        holders.append(('noop', c.custom_command(b'NOOP')))
+        for t in range(len(transactions_of(cfg))):
+            pre = '' if t == 0 else 't%d-' % (t + 1)
+            holders.append((pre + 'mail', c.mailfrom('s%d@x' % t)))
+            for i in range(cfg['n']):
+                holders.append((pre + 'rcpt%d' % i, c.rcptto('r%d@y' % i)))
+            if cfg.get('prog') == 'rehello':
+                holders.append(('ehlo-again', c.lhlo('me') if cfg['lmtp'] else c.ehlo('me')))
+            d = c.data()
+            holders.append((pre + 'data', d))
+            if d.code == '354':
+                if cfg['empty']:
+                    sd = c.send_empty_data()
+                else:
+                    sd = c.send_data(b'Subject: x\r\n\r\n', b'.leading dot\r\nbody\r\n')
+                if cfg['lmtp']:
+                    for rcpt, r in sd:
+                        holders.append((pre + 'enddata%d' % int(rcpt[1]), r))
+                else:
+                    holders.append((pre + 'enddata', sd))
+        if cfg.get('prog', 'std') == 'std':
+            holders.append(('rset', c.rset()))
+            holders.append(('noop', c.custom_command(b'NOOP')))
         holders.append(('quit', c.quit()))
     except OverRead as e:
         err = 'over-read: ' + str(e)
@@ -142,8 +174,6 @@ def session(cfg, sock):
         err = 'bad-reply'
     for name, r in holders:
         msg = r.message
-        if name == 'ehlo':
-            msg = r.message
         got.append((name, r.code, msg))
     return tuple(got), err, len(c.reply_queue), c.io.recv_buffer + sock.unread()
 
@@ -152,7 +182,7 @@ def expected_of(script):
     exp = []
     for name, code, text, w in script:
         t = text
-        if name != 'ehlo' and name != 'banner' and code[0] in '245':
+        if not name.startswith('ehlo') and name != 'banner' and code[0] in '245':
             t = '%s.0.0 %s' % (code[0], text)
         elif name == 'banner':
             t = text
@@ -163,8 +193,11 @@ def expected_of(script):
 def make_body(cfg, script):
     names = [s[0] for s in script]
     lens = [len(s[3]) for s in script]
-    data_acc = cfg['classes'][1 + cfg['n']] == '3'
-    n_end = sum(1 for nme in names if nme.startswith('enddata'))
+    data_acc, n_end = [], []
+    for t, cls in enumerate(transactions_of(cfg)):
+        pre = '' if t == 0 else 't%d-' % (t + 1)
+        data_acc.append(_split_classes(cls, cfg['n'])[2] == '3')
+        n_end.append(sum(1 for nme in names if nme.startswith(pre + 'enddata')))
     stream = b''.join(s[3] for s in script)
 
     def gate(sock):
@@ -187,7 +220,7 @@ def normalize_got(got):
 def judge(cfg, script, outs):
     exp = expected_of(script)
     v = []
-    base = {'lmtp': cfg['lmtp'], 'pipelining': cfg['pipelining']}
+    base = {'lmtp': cfg['lmtp'], 'pipelining': cfg['pipelining'], 'session': cfg.get('prog', 'std')}
     if len(outs) != 1:
         v.append((dict(base, kind='segmentation-dependent'), '%d different outcomes: %r' % (len(outs), sorted(map(repr, outs))[:2])))
     for got, err, qlen, left in sorted(outs, key=repr)[:2]:
@@ -230,13 +263,45 @@ def scripts(tier):
                                            'classes': ''.join(classes), 'lshift': dev % 3}
 
 
+def extra_scripts(tier):
+    """sessions of other shapes: two transactions on one connection, a second EHLO/LHLO in the middle of a transaction"""
+    def txn_classes(lmtp, n, limit):
+        for mail_c in '24':
+            for rc in itertools.product('245', repeat=n):
+                nacc = sum(1 for x in rc if x == '2')
+                for data_c in ('35' if (nacc and mail_c == '2') else '5'):
+                    n_end = (nacc if lmtp else 1) if data_c == '3' else 0
+                    for ec in itertools.product('245', repeat=n_end):
+                        dev = (mail_c != '2') + sum(1 for x in rc if x != '2') + (data_c != '3') + sum(1 for x in ec if x != '2')
+                        if dev <= limit:
+                            yield ''.join((mail_c,) + rc + (data_c,) + ec), dev
+    for lmtp in (False, True):
+        for pipelining in (True, False):
+            for n in (1, 2):
+                lim = 1 if tier == 'quick' else 2
+                for c1, d1 in txn_classes(lmtp, n, lim):
+                    for c2, d2 in txn_classes(lmtp, n, lim):
+                        if d1 + d2 <= lim:
+                            yield {'lmtp': lmtp, 'pipelining': pipelining, 'n': n, 'empty': False, 'prog': 'two',
+                                   'classes': c1 + '|' + c2, 'lshift': (d1 + d2) % 3}
+                for c1, d1 in txn_classes(lmtp, n, lim):
+                    for h2 in '25':
+                        if h2 == '2' and _split_classes(c1, n)[2] == '3':
+                            continue          # an accepted EHLO/LHLO resets the server: DATA cannot be accepted after it
+                        yield {'lmtp': lmtp, 'pipelining': pipelining, 'n': n, 'empty': False, 'prog': 'rehello', 'hello2': h2,
+                               'classes': c1, 'lshift': d1 % 3}
+
+
 def run_script(cfg, tier, res):
     script = build_script(cfg)
     body, make_sock, stream = make_body(cfg, script)
     outs = set()
     n_ = cfg['n']
-    cl = cfg['classes']
-    dev = (cl[0] != '2') + sum(1 for x in cl[1:1 + n_] if x != '2') + (cl[1 + n_] != '3') + sum(1 for x in cl[2 + n_:] if x != '2')
+    dev = 0
+    for cl in transactions_of(cfg):
+        dev += (cl[0] != '2') + sum(1 for x in cl[1:1 + n_] if x != '2') + (cl[1 + n_] != '3') + sum(1 for x in cl[2 + n_:] if x != '2')
+    if cfg.get('prog', 'std') != 'std':
+        dev += 1          # bounded segmentations only for the other session shapes
     if (tier == 'thorough' and dev <= 1) or (tier == 'quick' and dev == 0 and cfg['n'] <= 2):
         ex = AllSegmentations(body, stream, make_sock=make_sock)
         outs |= ex.explore()
@@ -255,7 +320,7 @@ def run_script(cfg, tier, res):
         res.transitions += 1
     for o in outs:
         res.outcome((o[0], o[1]))
-    res.interesting((cfg['lmtp'], cfg['pipelining'], cfg['n'], cfg['classes'], cfg['empty']))
+    res.interesting((cfg['lmtp'], cfg['pipelining'], cfg['n'], cfg['classes'], cfg['empty'], cfg.get('prog', 'std'), cfg.get('hello2')))
     return script, outs
 
 
@@ -267,7 +332,7 @@ def configs(tier, seed):
 
 def run_config(cfg, tier, seed):
     res = Result()
-    for i, sc in enumerate(scripts(tier)):
+    for i, sc in enumerate(itertools.chain(scripts(tier), extra_scripts(tier))):
         if i % cfg['of'] != cfg['k']:
             continue
         script, outs = run_script(sc, tier, res)
